@@ -431,7 +431,7 @@ func (a *FuncAn) resolveTerm(call *ssa.Call, t dterm) (cterm, bool) {
 		}
 		snap := a.callSnap[call]
 		p := a.pathOf(args[idx])
-		if p == nil || snap == nil {
+		if p == nil || (snap == nil && a.callVer[call] == nil) {
 			return cterm{}, false
 		}
 		k := p.key()
@@ -439,6 +439,9 @@ func (a *FuncAn) resolveTerm(call *ssa.Call, t dterm) (cterm, bool) {
 			k += fmt.Sprintf(".%d", f)
 			if v, ok := snap[k]; ok {
 				return a.projectValue(v, t.proj[i+1:])
+			}
+			if ver, ok := a.callVer[call][k]; ok && i == len(t.proj)-1 {
+				return cterm{key: ver}, true
 			}
 		}
 		return cterm{}, false
